@@ -717,6 +717,70 @@ fn send_error_probe(out: &mut dyn Write, exe: &std::path::Path, layout_file: &st
   Ok(())
 }
 
+// the queue of the virtual keyboard is full (EAGAIN on a non-blocking write, as on the real O_NONBLOCK uinput descriptor):
+// the real loop with the real driver must return the error instead of dropping the batch and going on.
+//   room = 0:   a 48-byte batch does not fit at all
+//   room = 100: an 18-record batch (432 bytes) does not fit although a 24- or 48-byte tail would
+fn full_queue_probe(out: &mut dyn Write, exe: &std::path::Path, layout_file: &str, name: &str, room: usize, outputs: usize) -> Result<(), String> {
+  {
+    let mut f = std::fs::File::create(layout_file).map_err(|e| format!("cannot write {}: {}", layout_file, e))?;
+    let to: Vec<KeyCode> = (0..outputs).map(|i| key(2 + i as u16)).collect();     // K1, K2, ...: distinct non-modifier keys
+    let m = Mapping { from: vec![key(30)], to, repeat: Repeat::Normal, absorbing: vec![] };
+    writeln!(f, "{}", mapping_line(&m)).map_err(|e| e.to_string())?;
+  }
+  let (kr, kw) = pipe_cloexec()?;
+  let (tr, tw) = pipe_cloexec()?;
+  let (or, ow) = pipe_cloexec()?;
+  // one page of pipe buffer, filled up to `room` bytes before its end
+  let sz = unsafe { libc::fcntl(ow, libc::F_SETPIPE_SZ, 4096) };
+  if sz != 4096 { for fd in [kr, kw, tr, tw, or, ow].iter() { close(*fd); } return Err(format!("cannot set the pipe size to one page (got {})", sz)); }
+  set_nonblock(ow, true);
+  let fill = vec![0u8; 4096 - room];
+  if write_all(ow, &fill).is_err() { for fd in [kr, kw, tr, tw, or, ow].iter() { close(*fd); } return Err("cannot fill the pipe".to_string()); }
+  set_nonblock(kr, true); set_nonblock(tr, true);
+  let mut cmd = Command::new(exe);
+  cmd.arg("realloop-child").arg(layout_file).arg(kr.to_string()).arg(tr.to_string()).arg(ow.to_string());
+  cmd.env("TM_REALLOOP_NONBLOCK_OUT", "1");
+  cmd.stdin(Stdio::null()).stdout(Stdio::null()).stderr(Stdio::null());
+  unsafe {
+    cmd.pre_exec(move || {
+      for fd in [kr, tr, ow].iter() {
+        let fl = libc::fcntl(*fd, libc::F_GETFD);
+        if fl < 0 || libc::fcntl(*fd, libc::F_SETFD, fl & !libc::FD_CLOEXEC) < 0 { return Err(std::io::Error::last_os_error()); }
+      }
+      Ok(())
+    });
+  }
+  let mut ch = match cmd.spawn() {
+    Ok(ch) => ch,
+    Err(e) => { for fd in [kr, kw, tr, tw, or, ow].iter() { close(*fd); } return Err(format!("cannot start the child process: {}", e)); }
+  };
+  close(kr); close(tr); close(ow);
+  let mut rec = vec![0u8; REC];
+  rec[16] = 1; rec[18] = 30; rec[20] = 1;      // EV_KEY, KEY_A, pressed
+  let _ = write_all(kw, &rec);
+  let t0 = Instant::now();
+  let mut status = None;
+  while t0.elapsed() < Duration::from_millis(4000) {
+    if let Some(s) = child_status(&mut ch) { status = Some(s); break; }
+    std::thread::sleep(Duration::from_millis(5));
+  }
+  let observed = match status {
+    Some(s) => s,
+    None => {
+      let u = unread(kw);
+      let _ = ch.kill(); let _ = ch.wait();
+      let mut got: Vec<u8> = vec![];
+      set_nonblock(or, true);
+      drain(or, &mut got);
+      format!("still-running-after-4s(unread-keyboard-bytes={},bytes-in-the-queue-beyond-the-fill={})", u, got.len() as i64 - (4096 - room) as i64)
+    }
+  };
+  writeln!(out, "POLLPROBE {} expected=exit:11 observed={}", name, observed).map_err(|e| e.to_string())?;
+  close(kw); close(tw); close(or);
+  Ok(())
+}
+
 // ------------------------------------------------------------------ entry points
 
 pub fn main(args: &[String]) -> i32 {
@@ -737,6 +801,8 @@ pub fn main(args: &[String]) -> i32 {
     let mut f = std::fs::File::create(&path).expect("create poll_probes.txt");
     if let Err(e) = poll_probes(&mut f) { println!("REALLOOP-UNAVAILABLE poll probes: {}", e); return EXIT_UNAVAILABLE; }
     if let Err(e) = send_error_probe(&mut f, &exe, &format!("{}/probe.layout", out_dir)) { println!("REALLOOP-UNAVAILABLE send-error probe: {}", e); return EXIT_UNAVAILABLE; }
+    if let Err(e) = full_queue_probe(&mut f, &exe, &format!("{}/probe2.layout", out_dir), "output-gone-full-queue-on-send", 0, 1) { println!("REALLOOP-UNAVAILABLE full-queue probe: {}", e); return EXIT_UNAVAILABLE; }
+    if let Err(e) = full_queue_probe(&mut f, &exe, &format!("{}/probe3.layout", out_dir), "output-gone-nearly-full-queue-large-batch", 100, 17) { println!("REALLOOP-UNAVAILABLE full-queue probe: {}", e); return EXIT_UNAVAILABLE; }
   }
   let t0 = Instant::now();
   let cases = Arc::new(make_cases(seed, thorough, scale));
@@ -821,7 +887,10 @@ pub fn child_main(args: &[String]) -> i32 {
   let kfd: i32 = args[1].parse().expect("kfd");
   let tfd: i32 = args[2].parse().expect("tfd");
   let ofd: i32 = args[3].parse().expect("ofd");
-  set_nonblock(kfd, true); set_nonblock(tfd, true); set_nonblock(ofd, false);
+  // the virtual keyboard is opened O_NONBLOCK by the real program (DevInputWriter::open); the runs over pipes use a blocking
+  // descriptor so that a slow reader never fails a write, the full-queue probes ask for the real mode
+  let out_nonblock = std::env::var("TM_REALLOOP_NONBLOCK_OUT").map(|v| v == "1").unwrap_or(false);
+  set_nonblock(kfd, true); set_nonblock(tfd, true); set_nonblock(ofd, out_nonblock);
   let layout = Layout { mappings: ms };
   let r = catch_unwind(AssertUnwindSafe(|| crate::remapping_loop::verif::run_real_driver_on_fds(kfd, Some(tfd), ofd, layout)));
   match r {
